@@ -112,6 +112,8 @@ let ba (toks : string list) : string =
              | Err e -> (err_kind e, 1)
              | Panic _ -> ("PANIC", 1))
           | "lvl" -> level := int_of_string (arg 1); ("ok", 1)
+          (* harness: ends a run of stream operations served by one reader / writer object; the model has no object identity *)
+          | "fresh" -> ("ok", 0)
           | "aae" -> a := allocate_at_end !a (n 1); ("ok", 1)
           | "al" -> (upd (allocate !a (n 1) (n 2) (bool_of (arg 3))), 3)
           | "de" -> (upd (deallocate !a (n 1) (n 2) (bool_of (arg 3))), 3)
